@@ -2,7 +2,7 @@
    stalls; the bridging pipe delivers exactly once in order.
    This file contains only statements, each closed by [exact]. *)
 From Coq Require Import ZArith List Bool.
-From BV Require Import Model.DataQueue Model.Pipe Proofs.DataQueue Proofs.Pipe Gen.C04Shape.
+From BV Require Import Model.DataQueue Model.Pipe Model.QueueRouting Proofs.DataQueue Proofs.Pipe Proofs.QueueRouting Gen.C04Shape.
 Import ListNotations.
 Open Scope Z_scope.
 
@@ -81,10 +81,73 @@ Definition shape_ok (s : shape) : bool :=
   negb (side_eqb (p_in_side s) (p_out_side s)) &&
   p_write_checks s && p_pause_checks s && p_resume_checks s && p_pump_checks s &&
   h_queues_from_reported_buffers s && h_le_shares_acl_queue_when_no_le_buffers s &&
-  h_completed_event_visits_every_entry s && h_disconnection_flushes_all_queues s.
+  h_completed_event_visits_every_entry s && h_disconnection_flushes_all_queues s &&
+  h_queue_lookup_is_stateless s && h_completed_event_uses_the_lookup s && h_remove_big_flushes_own_queue s.
 Theorem C04_source_shape_is_the_modelled_shape : shape_ok shape_of_source = true.
 Proof. vm_compute. reflexivity. Qed.
 Print Assumptions C04_source_shape_is_the_modelled_shape.
+
+(* ---- the host's queues together: routing of traffic and completion reports by handle ----
+   Model/QueueRouting.v: any number of queues; links of any kind enter the link tables with a handle the
+   controller is not using (HOpen), leave by a disconnection (HClose: the handle is flushed from every
+   queue) or by the removal of their BIG (HCloseOwn: flushed from the link's own queue); traffic (HSend)
+   and completion reports (HDone, any count >= 0, any handle) are routed by the CURRENT link tables.
+   In every reachable state, for every history (including any re-use of handles by links of another kind
+   on another queue):
+   - every handle a queue holds anything for (waiting packets, per-connection in-flight state) is live and
+     routed to that very queue,
+   - every queue satisfies the queue invariant of C04_queue_invariant (credit bound, work conservation,...). *)
+Theorem C04_routing_invariant : forall maxfs ops,
+  Forall (fun m => 0 <= m) maxfs -> Forall hop_ok ops -> hinv (fst (h_run (h_init maxfs) ops)).
+Proof. intros maxfs ops Hm Hok. exact (hinv_run ops (h_init maxfs) Hok (hinv_init maxfs Hm)). Qed.
+Print Assumptions C04_routing_invariant.
+
+(* Hence a completion report for a handle always reaches the queue that accounts that handle's packets
+   (credits are returned where they were taken, never to another queue and never dropped). *)
+Theorem C04_completion_reaches_accounting_queue : forall maxfs ops i q c n h,
+  Forall (fun m => 0 <= m) maxfs -> Forall hop_ok ops ->
+  let s := fst (h_run (h_init maxfs) ops) in
+  nth_error (h_queues s) i = Some q -> find_conn h (q_conns q) = Some c ->
+  fst (h_step s (HDone n h)) = mkH (h_links s) (fst (step_at i (Completed n h) (h_queues s))).
+Proof.
+  intros maxfs ops i q c n h Hm Hok s Hq Hc.
+  exact (done_reaches_owner s i q c n h
+           (hi_owned _ (hinv_run ops (h_init maxfs) Hok (hinv_init maxfs Hm))) Hq Hc).
+Qed.
+Print Assumptions C04_completion_reaches_accounting_queue.
+
+(* A queue with no live link holds nothing and has every credit free: no buffer is ever left accounted
+   to a link that is gone, so packets of later links cannot be left waiting for it. *)
+Theorem C04_idle_queue_has_all_credits : forall maxfs ops i q,
+  Forall (fun m => 0 <= m) maxfs -> Forall hop_ok ops ->
+  let s := fst (h_run (h_init maxfs) ops) in
+  nth_error (h_queues s) i = Some q -> (forall k, route k (h_links s) <> Some i) ->
+  q_conns q = [] /\ q_wait q = [] /\ q_inflight q = 0.
+Proof.
+  intros maxfs ops i q Hm Hok s Hq Hidle.
+  exact (idle_queue_is_empty s i q (hinv_run ops (h_init maxfs) Hok (hinv_init maxfs Hm)) Hq Hidle).
+Qed.
+Print Assumptions C04_idle_queue_has_all_credits.
+
+(* A handle that is not live is known to no queue: whatever link re-uses it starts from nothing. *)
+Theorem C04_closed_handle_leaves_nothing : forall maxfs ops i q h,
+  Forall (fun m => 0 <= m) maxfs -> Forall hop_ok ops ->
+  let s := fst (h_run (h_init maxfs) ops) in
+  nth_error (h_queues s) i = Some q -> route h (h_links s) = None ->
+  find_conn h (q_conns q) = None /\ filter (is_handle h) (q_wait q) = [].
+Proof.
+  intros maxfs ops i q h Hm Hok s Hq R.
+  exact (closed_handle_unknown s i q h (hinv_run ops (h_init maxfs) Hok (hinv_init maxfs Hm)) Hq R).
+Qed.
+Print Assumptions C04_closed_handle_leaves_nothing.
+
+(* Non-vacuity: a BIS on the ISO queue (index 1), its BIG removed, the handle re-used by an ACL link on
+   queue 0 with one buffer: both packets get through as the completion report reaches queue 0. *)
+Example C04_routing_nonvacuous :
+  let '(s, sent) := h_run (h_init [1; 2])
+      [HOpen 16 1; HSend 100 16; HDone 1 16; HCloseOwn 16; HOpen 16 0; HSend 200 16; HSend 201 16; HDone 1 16] in
+  sent = [(100, 16); (200, 16); (201, 16)] /\ route 16 (h_links s) = Some 0%nat.
+Proof. vm_compute. split; reflexivity. Qed.
 
 (* Non-vacuity: a concrete history reaching a state with waiting packets. *)
 Example C04_nonvacuous :
